@@ -12,7 +12,7 @@ PARTIAL = [
     "cos / sin of the angle are passed to the model as the doubles Python computes (no use of c^2 + s^2 = 1 is made; the theorem holds for any c, s)",
     "object identity (inplace vs copy) is a runtime notion: checked by the oracle (id(), snapshot of the input), not a Lean theorem",
     "containers: checked by the oracle; the Lean model is per shape",
-    "volumes and rational shapes: general lemmas proved (affine_combination, linear_combination_commutes), assembled theorems only for curves and surfaces",
+    "fully assembled `rotate` statements (model's rotate on a Shape) are given for volumes (rational and not); for curves and surfaces they follow from the same three pieces (rotate_net_*, affine_maps_compose, transformed_*_point) but are not written out; rational statements assume positive weights",
 ]
 
 
